@@ -18,6 +18,9 @@ static void V_randget (gmp_randstate_t st, mp_ptr rp, mpir_ui nbits)
   if (nl == 1) rp[0] = nondet_ulong ();
   else if (nl != 0) { __CPROVER_assert (V_DFCC, "multi-limb generator output only in DFCC units"); __CPROVER_havoc_slice (rp, nl * 8); }
   if (nbits % 64 != 0) __CPROVER_assume ((rp[nl - 1] >> (nbits % 64)) == 0);
+#ifdef V_REC_NBITS
+  g_nbits = nbits;          /* ghost: the bit count the function under contract asked the generator for */
+#endif
 }
 static const gmp_randfnptr_t V_fns = {0, V_randget, 0, 0};
 #define V_RSTATE(R) __gmp_randstate_struct R; R._mp_algdata._mp_lc = (void *) &V_fns;
@@ -171,11 +174,11 @@ UNITS.append(dict(
     selftest=[('randget_lc', r'if \(nbits % \(64 - 0\) != 0\)\s*rp\[nbits / \(64 - 0\)\]', 'if (0) rp[nbits / (64 - 0)]')]))
 
 # ------------------------------------------------------------------ mpz_urandomm: 0 <= result < |n| for every n, also when rop == n (rejection loop; generator assumed)
-UM_CONTRACT = '''_Bool g_div0_expected;
+UM_CONTRACT = '''_Bool g_div0_expected; unsigned long g_nbits;
 void __gmp_divide_by_zero (void) { __CPROVER_assert (g_div0_expected, "[C19][C02] DIVIDE_BY_ZERO only for n == 0"); __CPROVER_assume (0); }
 void __gmpz_urandomm (mpz_ptr rop, gmp_randstate_t rstate, mpz_srcptr n)
 __CPROVER_requires (V_WF (rop) && V_WF (n) && __CPROVER_r_ok (rstate, sizeof (*rstate)) && V_GHOSTS_OK)
-__CPROVER_assigns (*rop, __CPROVER_object_whole (V_PTR (rop)), g_hd)
+__CPROVER_assigns (*rop, __CPROVER_object_whole (V_PTR (rop)), g_hd, g_nbits)
 __CPROVER_frees (V_PTR (rop))
 __CPROVER_ensures (V_WF_AT (rop, gk) && V_WF_AT (rop, gj) && V_SIZ (rop) >= 0);
 '''
@@ -187,8 +190,8 @@ void h_mpz_urandomm (void) {
 ALIASBLOCK
   gk = nondet_long (); gj = nondet_long (); gh = nondet_long ();
   __CPROVER_assume (V_GHOSTS_OK && V_WF (rop) && V_WF (n));
-  long sn = V_SIZ (n), un = V_ABS (sn); mp_limb_t Nk = gk < un ? V_PTR (n)[gk] : 0, Nj = gj < un ? V_PTR (n)[gj] : 0, N0 = un ? V_PTR (n)[0] : 0;
-  g_div0_expected = (un == 0); g_hd = -1;
+  long sn = V_SIZ (n), un = V_ABS (sn); mp_limb_t Nk = gk < un ? V_PTR (n)[gk] : 0, Nj = gj < un ? V_PTR (n)[gj] : 0, N0 = un ? V_PTR (n)[0] : 0, Ntop0 = un ? V_PTR (n)[un - 1] : 1;
+  g_div0_expected = (un == 0); g_hd = -1; g_nbits = 0;
   __gmpz_urandomm (rop, &R, n);
   __CPROVER_assert (un != 0, "[C19] returned normally, so n was not zero");
   long rn = V_SIZ (rop);
@@ -201,6 +204,11 @@ ALIASBLOCK
       __CPROVER_assert (0 <= g_hd && g_hd < un && rn <= un, "[C19] the result differs from |n| at some limb g_hd and has at most as many limbs");
       __CPROVER_assert (g_hd == gk ==> V_RL (gk) < Nk, "[C19] at the highest differing limb the result is smaller than |n|");
       __CPROVER_assert ((g_hd < gj && gj < un) ==> V_RL (gj) == Nj, "[C19] all limbs above it agree with |n| (compared against the ORIGINAL n, also when rop == n)");
+      /* exact bit count (the property's "power-of-two detection"): unless |n| is a power of two, the generator is asked for bitlength (|n|) bits - with fewer, the upper part of [0, n) would
+         never be drawn.  "Not a power of two" is witnessed by the top limb or by a non-zero lower limb at the ghost position gj. */
+      __CPROVER_assert (((Ntop0 & (Ntop0 - 1)) != 0 || (gj < un - 1 && Nj != 0)) ==> g_nbits == 64 * (unsigned long) un - (unsigned long) __builtin_clzl (Ntop0),
+                        "[C19] |n| not a power of two (witness: top limb, or the non-zero lower limb gj): the generator is asked for exactly bitlength (|n|) bits");
+      __CPROVER_assert (g_nbits == 64 * (unsigned long) un - (unsigned long) __builtin_clzl (Ntop0) || g_nbits == 64 * (unsigned long) un - (unsigned long) __builtin_clzl (Ntop0) - 1, "[C19] bit count is bitlength (|n|) or one less");
     }
   if (n != rop) __CPROVER_assert ((long) V_SIZ (n) == sn && (gk < un ==> V_PTR (n)[gk] == Nk), "[C05] n (not the result) unchanged");
   free (X._mp_d); free (N._mp_d);
@@ -211,7 +219,7 @@ _um = dict(
     functions={'__gmpz_urandomm': dict(
         inserts=[(r'\(cmp\) = \(__gmp_x > __gmp_y \? 1 : -1\);', r'g_hd = __gmp_i; \g<0>')],
         loops={0: dict(scalars=['pow2'], havoc_targets=['np'], havoc='{ long V_d = nondet_long (); __CPROVER_assume (0 <= V_d && V_d <= size - 1); np = n->_mp_d + V_d; }', havoc_inv={'V_d': '(np - n->_mp_d)'},
-                       inv='(np >= n->_mp_d && np <= nlast && __CPROVER_same_object (np, n->_mp_d) && nlast == n->_mp_d + (size - 1) && size >= 1 && pow2 == 1)', dec='(nlast - np)'),
+                       inv='(np >= n->_mp_d && np <= nlast && __CPROVER_same_object (np, n->_mp_d) && nlast == n->_mp_d + (size - 1) && size >= 1 && pow2 == 1 && ((0 <= gj && gj < np - n->_mp_d) ==> n->_mp_d[gj] == 0))', dec='(nlast - np)'),
                1: copy_loop(['gk', 'gj']),
                2: dict(scalars=['cmp', 'g_hd'], local_to_body=['__rstate', '__gmp_i', '__gmp_x', '__gmp_y', 'V_nd'], slices=[('rp', 'size * 8')],
                        inv='(size >= 1 && size <= V_ZMAX && V_W_OK (rp, size) && V_R_OK (np, size) && !__CPROVER_same_object (rp, np) && nbits >= 1 && (unsigned long) nbits <= 64 * (unsigned long) size && ((unsigned long) nbits > 64 * (unsigned long) (size - 1) || rp[size - 1] == 0))'),
@@ -219,7 +227,7 @@ _um = dict(
                        inv='(0 <= __gmp_i && __gmp_i <= size && cmp == 0 && ((__gmp_i <= gj && gj < size) ==> rp[gj] == np[gj]) && ((__gmp_i <= gk && gk < size) ==> rp[gk] == np[gk]))', dec='__gmp_i'),
                4: dict(snap='long V_nl0 = size;', scalars=['size'], dec='size',
                        inv='(0 <= size && size <= V_nl0 && ((size <= gk && gk < V_nl0) ==> rp[gk] == 0) && ((size <= gj && gj < V_nl0) ==> rp[gj] == 0))')})},
-    harness='#define V_DFCC 1\n' + GEN + UM_H % dict(X=mpz_obj('X'), N=mpz_obj('N')), timeout=1500,
+    harness='#define V_DFCC 1\n#define V_REC_NBITS 1\n' + GEN + UM_H % dict(X=mpz_obj('X'), N=mpz_obj('N')), timeout=1500,
     selftest=[('__gmpz_urandomm', r'while \(cmp >= 0\);', 'while (cmp > 0);'), ('__gmpz_urandomm', r'rp\[size - 1\] = 0;', ';')])
 for _t, _c in (('', ''), ('an', '  n = rop;')):
     _v = dict(_um); _v['name'] = 'mpz_urandomm' + ('_' + _t if _t else '')
